@@ -11,8 +11,9 @@ Programs
 
   A J/Z target is any token boundary 0..n (n = end of the buffer: nothing to decode there) or the *middle*
   (start + 1) of any multi-byte token (including the jump's own rel8 byte and the rel32 of a CALL).
-  mips32l tokens (thorough tier; 4 bytes each, every instruction has one delay slot): NOP, ADDU, JR RA,
-  ffffffff (no decoding), B, BNE, JAL with every token boundary as target.
+  mips32l tokens (4 bytes each, every instruction has one delay slot): NOP, ADDU, JR RA, ffffffff (no decoding),
+  B, BNE, JAL with every token boundary as target (thorough); quick runs the complete family of <= 3 tokens over
+  {NOP, JR RA, B, BNE}, which contains every branch-in-delay-slot shape.
   The lattice is `all token sequences of length <= L with at most B branch tokens (J/Z/C)`, for the (L, B)
   pairs listed under `bounds` (the full alphabet at length 5 has 3e7 sequences; the bound on the number of
   branch tokens is what makes the longer lengths enumerable).
@@ -43,6 +44,9 @@ Oracle (what the property states, nothing else); `ref(o)` is a fresh `mn.dis(bin
       carries c_next, the others c_to;  graph edges == bto destinations that have a block, the others are
       pending; without blocs_wd every destination has a block (good or bad) and nothing is pending
   I10 a bad block sits at a dont_dis address or where ref() fails;  the start offset has a block
+  I11 (without lines_wd / blocs_wd) every instruction start reachable from the start offset through decoded flow -
+      fall-throughs, followed destinations, delay-slot instructions, a branch sitting in a delay slot (it starts its own
+      block), the fall-through after a complete slot - belongs to a block; forbidden / undecodable addresses stop the walk
   I12 bbl_simplifier (x86 only; on mips32 miasm raises "Not implemented yet" for delay slots, counted) : for every
       block surviving the merge, the set of instruction sequences of the paths leaving it (truncated to 6
       instructions, bad blocks / ends / instruction-free cycles marked) is unchanged.  The joining jump that
@@ -51,8 +55,10 @@ Oracle (what the property states, nothing else); `ref(o)` is a fresh `mn.dis(bin
 
 mips32 delay slots: when a block holds a branch without its full delay slot (cut by an option, by a split at a
 branch target or by a second branch in the slot), the property text does not say which of the two pieces
-carries the destinations; such blocks and the blocks following them are only checked for I1-I8/I10 and counted
-(`ds_incomplete`).
+carries the destinations; such blocks and the blocks following them are checked for I1-I8/I10/I11, counted
+(`ds_incomplete`), and only the piece-independent part of I9 is demanded of them: no successor besides the branch
+destinations and the address following the block, a c_next to that address (except after a lines_wd cut), and every
+branch destination carried by the block or by the piece that follows it.
 """
 import itertools
 import logging
@@ -64,7 +70,7 @@ LEVEL = "exploration"
 ENGINE = "enum"
 RULE = ("every token sequence up to the length/branch-count bounds over {NOP, 2-byte ALU, RET, undecodable byte, JMP/JZ rel8 to "
         "every token boundary and every mid-token address, CALL rel32 to every boundary} (x86_32) and the delay-slot alphabet "
-        "(mips32l, thorough), every start boundary, option families default / every single option / full option product on the "
+        "(mips32l: thorough, and in quick every sequence of <= 3 tokens over {NOP, JR RA, B, BNE}), every start boundary, option families default / every single option / full option product on the "
         "short programs; a case is non-trivial when the resulting graph has at least two blocks or a bad block or was cut by an "
         "option; every (program, start, options) triple is enumerated once (distinct by construction), the number of distinct "
         "resulting graph shapes is reported per shard")
@@ -73,6 +79,9 @@ LEVEL_TEXT = ("Bounded-exhaustive: every program of the token lattice is disasse
               "fresh single-instruction decodings and with the successor/limit rules the property states; the merge pass is run "
               "on every returned graph and path instruction sequences are compared before/after.")
 LEVEL_NOTE = ("Trusted: mn.dis as the single-instruction decoder (C14-C17 check it), the harness' union-find/path enumeration. "
+              "Under blocs_wd the engine itself picks which pending destination it disassembles first by iterating a set of constraint "
+              "objects (identity hashes), so the descriptive counters (bad_blocks, pending, ds_incomplete, shapes) can differ by a few "
+              "units between runs on mips32; every outcome is checked against the same rules and the verdict does not depend on it. "
               "Not covered: programs with more branch tokens than the bound, dont_dis/split_dis sets with two or more addresses, "
               "dont_dis_retcall_funcs, dont_dis_nulstart_bloc, dis_block_callback, other architectures, successor exactness "
               "around incomplete mips32 delay slots (ambiguous in the property), merging on delay-slot architectures "
@@ -83,6 +92,8 @@ ASSUMPTIONS = ["mn.dis at an offset is the reference decoding of that offset",
                "the instruction removed by _merge_blocks (the direct jump joining the merged blocks) is not part of a path's instruction sequence"]
 
 KINDS = "NARUJZC"          # simplest first
+# token kinds used per (tier, architecture); default: all
+KIND_SUBSET = {("quick", "mips32l"): "NRJZ"}
 BRANCH = "JZC"
 PATH_K = 6
 
@@ -101,6 +112,9 @@ BOUNDS = {
                    "default": [(1, 1), (2, 2), (3, 2), (4, 1), (5, 0)],
                    "single": [(1, 1), (2, 2), (3, 1)],
                    "cross": [(1, 1), (2, 0)]},
+        # small complete delay-slot family: every sequence of <= 3 tokens over {NOP, JR RA, B, BNE} (every boundary
+        # as target), i.e. every branch-in-delay-slot shape, from every start
+        "mips32l": {"start0": [], "default": [(1, 1), (2, 2), (3, 3)], "single": [(1, 1), (2, 2)], "cross": []},
     },
     "thorough": {
         "x86_32": {"start0": [(6, 1)],
@@ -118,8 +132,8 @@ BOUNDS = {
 # ------------------------------------------------------------------------------------------------
 # programs
 
-def skeletons(n, maxbr):
-    for sk in itertools.product(KINDS, repeat=n):
+def skeletons(n, maxbr, kinds=KINDS):
+    for sk in itertools.product(kinds, repeat=n):
         if sum(1 for k in sk if k in BRANCH) <= maxbr:
             yield sk
 
@@ -478,6 +492,44 @@ def check_snapshot(arch, snap, ref, start, opts):
                 if ct == "c_next":
                     ambiguous.add(d)
 
+    # I11 reachability: every instruction start reachable from the start offset through decoded flow (delay slots,
+    # followed destinations, fall-throughs) belongs to a block.  Only without lines_wd / blocs_wd (they cut arbitrarily).
+    if lw is None and bw is None:
+        reach = set()
+        todo = [start]
+        while todo:
+            o = todo.pop()
+            if o in reach or o in dont:
+                continue
+            r = ref.at(o)
+            if r is None:
+                continue
+            reach.add(o)
+            if not r["br"]:
+                todo.append(o + r["l"])
+                continue
+            if r["ds"] and (not r["sc"] or fc):
+                todo.extend(r["dests"])
+            # delay slots: executed whatever the branch does; a flow instruction in a slot starts its own block
+            nxt = o + r["l"]
+            complete = True
+            for _ in range(r["slot"]):
+                rs = ref.at(nxt)
+                if rs is None or nxt in dont:
+                    complete = False
+                    break
+                if rs["br"]:
+                    todo.append(nxt)
+                    complete = False
+                    break
+                reach.add(nxt)
+                nxt += rs["l"]
+            if complete and r["sp"] and not (r["sc"] and dr):
+                todo.append(nxt)
+        for o in sorted(reach - set(owner)):
+            bad("reachable-instruction-in-no-block", "%r at %#x is reachable from %#x through decoded flow but belongs to no block"
+                % (ref.at(o)["text"], o, start))
+
     # I9 successors
     nds = 0
     for off, inf in sorted(info.items()):
@@ -489,6 +541,24 @@ def check_snapshot(arch, snap, ref, start, opts):
             bad("succ:two-constraints-same-destination", "block %#x bto %r" % (off, b["bto"]))
         if off in ambiguous:
             nds += 1
+            if inf["k"] is not None and not inf["complete"]:
+                # a flow instruction without its whole delay slot.  Which piece carries the destinations is left open,
+                # but (a) nothing else may be a successor, (b) the rest of the slot is linked by c_next (except after a
+                # lines_wd cut), (c) the destinations are carried by this block or by the piece that follows it
+                fr, end = inf["fr"], inf["end"]
+                to = set(fr["dests"]) if (fr["ds"] and (not fr["sc"] or fc)) else set()
+                got = set(actual)
+                for d in sorted(got - to - {end}):
+                    bad("succ:extra:delay-slot-cut", "block %#x (flow %s, end %#x): unexpected successor %#x, bto=%r"
+                        % (off, fr["text"], end, d, b["bto"]))
+                if end not in got and not (lw is not None and cut_ok(off, lw)):
+                    bad("succ:missing-fallthrough:delay-slot-cut", "block %#x ends inside the delay slot of %s but has no "
+                        "c_next to %#x, bto=%r" % (off, fr["text"], end, b["bto"]))
+                tail = blocks.get(end)
+                carried = got | (set(d for _, d in tail["bto"]) if tail is not None else set())
+                for d in sorted(to - carried):
+                    bad("succ:missing-flow-destination:delay-slot-cut", "destination %#x of %s (block %#x) is carried neither by "
+                        "the block nor by the piece at %#x" % (d, fr["text"], off, end))
         else:
             fr, end = inf["fr"], inf["end"]
             may_miss = False
@@ -691,10 +761,11 @@ def _new_stats():
 
 def _shard(args):
     tier, arch, n, maxbr, idx, nsh = args
+    kinds = KIND_SUBSET.get((tier, arch), KINDS)
     st = _new_stats()
     vs = []
     sample = None
-    for i, sk in enumerate(skeletons(n, maxbr)):
+    for i, sk in enumerate(skeletons(n, maxbr, kinds)):
         if i % nsh != idx:
             continue
         for prog in programs_of(arch, sk):
@@ -726,7 +797,7 @@ def run(ctx):
             for (L, B) in lst:
                 lens[L] = max(lens.get(L, 0), B)
         for L, B in sorted(lens.items()):
-            nsk = sum(1 for _ in skeletons(L, B))
+            nsk = sum(1 for _ in skeletons(L, B, KIND_SUBSET.get((tier, arch), KINDS)))
             nsh = max(1, min(nsk, 16 if L <= 3 else (64 if L <= 4 else 256)))
             shards += [(tier, arch, L, B, i, nsh) for i in range(nsh)]
     res = ctx.pmap(_shard, shards)
@@ -744,7 +815,8 @@ def run(ctx):
         "samples": samples,
         "exhaustive": True,
         "bounds": {"tier": tier, "families(length,max_branch_tokens)": BOUNDS[tier], "path_truncation": PATH_K,
-                   "x86_alphabet": "N A R U J>(b0..n|mid) Z>(b0..n|mid) C>b0..n", "mips_alphabet": "N A R U J>b Z>b C>b"},
+                   "x86_alphabet": "N A R U J>(b0..n|mid) Z>(b0..n|mid) C>b0..n", "mips_alphabet": "N A R U J>b Z>b C>b",
+                   "token_kind_subsets": {"%s/%s" % k: v for k, v in KIND_SUBSET.items()}},
     }
     cov.update(tot)
     return cov
